@@ -12,14 +12,14 @@ from vf.models.ranges import canonical_problem, resolve, tokenize
 PROPERTY = "C03"
 LEVEL = "exploration"
 SHARDS = {"quick": 4, "thorough": 16}
-REQUIRED = ["model-compare", "canonical-contract", "reject-or-canonical"]
+REQUIRED = ["model-compare", "canonical-contract", "reject-or-canonical", "pre-empted-between-library-lines"]
 RULE = ("Bounded-exhaustive: every ordered list of 1..3 specs (forms a-b, a-, -s) over a small number domain x every "
         "file size in the bound (quick: <=2 specs over 0..8 x sizes 0..7, 3 specs over 0..5 x sizes 0..6; thorough: 3 specs "
         "over 0..8 x sizes 0..7, 4 specs over 0..4 x sizes 0..5), plus random 4-12-spec lists over sizes up to 10^6 with "
         "OWS/empty-element variants, plus non-grammar text (garbage, other units, huge digit strings). Non-trivial = >=2 "
         "specs of which two overlap/touch/nest, or a clipped last-byte / suffix form, or a rejected header; enumerated cases "
         "are distinct by construction, random ones are de-duplicated by (header,size).")
-RULE += ' Also: the list a request got back is looked at again after the next two requests were resolved (a response still uses it); file sizes beyond 2**53 / 2**63 / 2**64 and numbers with leading zeros or 20+ digits.'
+RULE += ' Also: the list a request got back is looked at again after the next two requests were resolved (a response still uses it); file sizes beyond 2**53 / 2**63 / 2**64 and numbers with leading zeros or 20+ digits. Two resolutions for files of different sizes made by two threads, the switch placed between any two library lines.'
 ASSUMPTIONS = [
     "precedence between 400 and 416 when a header contains both a first>last spec and an unsatisfiable spec is not pinned: either accepted",
     "headers outside the RFC 7233 grammar only have to be rejected with 400/416 or resolved to a canonical in-bounds list (the pinned test-suite requires 'bytes=0-10,hello' to be accepted)",
@@ -277,6 +277,15 @@ def run(ctx):
         ctx.case((header, size))
         if i < 2:
             ctx.sample("arbitrary-text", {"header": header, "size": size})
+    # ---- two threads resolve headers for files of different sizes at once (a thread switch placed between any two library lines)
+    from vf import inflight
+    with inflight.preemptor() as pre:
+        for i in range(ctx.scale(40, 1500)):
+            sa, sb = rng.choice([(1000, 50), (50, 1000), (10, 10 ** 6), (4623, 4624), (100, 0)])
+            ha, hb = (rng.choice(["bytes=-5,0-2", "bytes=0-9,20-", "bytes=5-,0-1", "bytes=0-99", "bytes=-1", "bytes=2-3,1-1,9-", "bytes=900-", "bytes=0-0,-1"]) for _ in "ab")
+            case = {"two_threads": [{"header": ha, "size": sa}, {"header": hb, "size": sb}]}
+            inflight.check_preempted_calls(ctx, pre, lambda: _call(ha, sa), lambda: _call(hb, sb), "two-resolutions", case)
+            ctx.case(("two-threads", ha, sa, hb, sb))
     # ---- the same questions again, after everything else this process has resolved
     for (h, sz), first in list(ASKED.items()):
         again = _call(h, sz)
@@ -291,6 +300,13 @@ def run(ctx):
 
 def replay(ctx, case):
     contracts.arm_parse_range()
+    if "two_threads" in case:
+        from vf import inflight
+        a, b = case["two_threads"]
+        with inflight.preemptor() as pre:
+            inflight.check_preempted_calls(ctx, pre, lambda: _call(a["header"], a["size"]), lambda: _call(b["header"], b["size"]), "two-resolutions", {"two_threads": [a, b]}, max_points=400)
+        ctx.case(1)
+        return
     if "then" in case:
         _call(case["header"], case["size"])
         _call(case["then"]["header"], case["then"]["size"])
